@@ -88,3 +88,8 @@ def random_replay(g, ob, vals, res):
     seed = _int(vals.get('seed', ('42', None))[0])
     cands = [[seed, 3, 5], [seed, 0, 0], [seed, 7, 64], [1, 3, 5], [0, 1, 1], [2 ** 64 - 1, 2, 63]]
     return scenario_sweep(src, cands)
+
+
+def hashheap_replay(g, ob, vals, res):
+    src = os.path.join(VERIF, 'replay', 'hashheap_replay.c')
+    return scenario_sweep(src, [[seed, 3000] for seed in range(1, 41)], budget_s=90)
